@@ -187,9 +187,10 @@ def gen_library(rng, tier):
         contig = rng.randint(1, ncontig)
         if ncontig > 1 and rng.random() < 0.3 and frs:      # the same coordinates on another contig
             pos, contig = frs[-1]['site'], (frs[-1]['contig'] % ncontig) + 1
+        site_umi = [rng.randint(0, 3) for _ in range(ulen)]     # the same UMI in other cells / on the other strand of this site
         for strand in ([0, 1] if rng.random() < 0.5 else [rng.randint(0, 1)]):
             for cell in rng.sample(range(1, ncell + 1), rng.randint(1, min(ncell, 2))):
-                umis = [[rng.randint(0, 3) for _ in range(ulen)]]
+                umis = [list(site_umi) if rng.random() < 0.6 else [rng.randint(0, 3) for _ in range(ulen)]]
                 for _ in range(rng.choice([0, 0, 1, 2, 5])):
                     r = rng.random()
                     if r < 0.35:
@@ -299,6 +300,12 @@ def directed_libraries():
                 # sites within / just outside the radius
                 for rad in (2, 5):
                     out.append((dict(base, hd=0, radius=rad), [f(1, 1, 0, 100 + k, u) for k in (0, rad, rad + 1, 2 * rad, 2 * rad + 1)]))
+                    for strand in (0, 1):       # exactly radius apart (may join) / radius + 1 apart (must stay apart)
+                        out.append((dict(base, hd=0, radius=rad), [f(1, 1, strand, 100, u), f(1, 1, strand, 100 + rad, u)]))
+                        out.append((dict(base, hd=0, radius=rad), [f(1, 1, strand, 100, u), f(1, 1, strand, 100 + rad + 1, u), f(1, 1, strand, 100 + rad + 1, u, flen=9)]))
+            # UMIs exactly hd + 1 apart must stay apart
+            for hd, far in ((0, v1), (1, v2), (2, [1, 1, 1])):
+                out.append((dict(base, hd=hd), [f(1, 1, 0, 100, u), f(1, 1, 0, 100, far), f(1, 1, 0, 100, u, flen=9), f(1, 1, 0, 100, far, flen=9)]))
     return out
 
 
